@@ -128,7 +128,14 @@ impl v1::Counter for Obj {
         Ok(do_add(&mut self.val, "add", call, k, steps).await)
     }
     async fn add_nc(&mut self, call: u32, k: u64, steps: u32) -> Result<u64, CallError> {
-        Ok(do_add(&mut self.val, "add_nc", call, k, steps).await)
+        // writes before its suspension point: an execution that is abandoned there leaves a state no completed
+        // execution explains
+        let before = self.val;
+        let g = ExecGuard::start(call, "add_nc", before);
+        self.val = before + k;
+        yields(steps as u64).await;
+        g.end("add_nc", before, self.val, self.val);
+        Ok(self.val)
     }
     async fn hang(&mut self, call: u32) -> Result<u64, CallError> {
         let _g = ExecGuard::start(call, "hang", self.val);
@@ -471,6 +478,152 @@ pub async fn once_scenario(seed: u64, remote: bool) {
     for h in sh {
         h.abort();
     }
+    for conn in conn_keep.into_iter() {
+        conn.pump.abort();
+        for c in conn.conn {
+            c.abort();
+        }
+    }
+    settle().await;
+}
+
+// ------------------------------------------------------------------------------------------------ remote functions
+/// Remote functions (rfn): one scenario per function kind.  kind 0: RFnMut (a read-modify-write closure, calls in
+/// sequence, some abandoned by the caller - the provider must run each request once and to completion);
+/// kind 1: RFn (shared by clones, concurrent calls); kind 2: RFnOnce.
+pub async fn rfn_scenario(seed: u64, remote: bool, kind: u64) {
+    use remoc::rfn::{RFn, RFnMut, RFnOnce};
+    use std::sync::atomic::AtomicU64;
+    type FErr = remoc::rfn::CallError;
+    fn log_ret_f(call: u32, r: Option<Result<u64, FErr>>, _val: impl Fn(&u64) -> u64) {
+        match r {
+            None => tr(json!({"ev": "c_cancel", "call": call})),
+            Some(Ok(v)) => tr(json!({"ev": "c_ret", "call": call, "r": "ok", "v": v})),
+            Some(Err(e)) => tr(json!({"ev": "c_ret", "call": call, "r": "err", "kind": format!("{e:?}").split('(').next().unwrap_or("err").to_lowercase()})),
+        }
+    }
+    let mut rng = Rng::new(seed ^ 0x2F17);
+    NEXT_CALL.store(1, Ordering::SeqCst);
+    let (ca, cb) = (upper_cfg(&mut rng), upper_cfg(&mut rng));
+    let kind = if kind >= 3 { seed % 3 } else { kind };
+    let kname = ["fmut", "fconst", "fonce"][kind as usize];
+    tr(json!({"ev": "reset", "seed": seed, "wl": "rfn", "flavour": kname, "remote": remote, "cut": false, "buf": 1,
+              "oversize": false, "undecodable": false, "limit": REPLY_LIMIT}));
+    install_spawn_policy(seed, 1, 4);
+    let val = std::sync::Arc::new(AtomicU64::new(0));
+    type FMut = RFnMut<(u32, u64, u32), Result<u64, FErr>>;
+    type FConst = RFn<(u32, u32), Result<u64, FErr>>;
+    type FOnce = RFnOnce<(u32, u32), Result<u64, FErr>>;
+    let v1 = val.clone();
+    let fmut: FMut = RFnMut::new_3(move |call: u32, k: u64, steps: u32| {
+        let v = v1.clone();
+        async move {
+            let before = v.load(Ordering::SeqCst);
+            let g = ExecGuard::start(call, "fmut", before);
+            v.store(before + k, Ordering::SeqCst);
+            yields(steps as u64).await;
+            let after = v.load(Ordering::SeqCst);
+            g.end("fmut", before, after, after);
+            Ok(after)
+        }
+    });
+    let v2 = val.clone();
+    let fconst: FConst = RFn::new_2(move |call: u32, steps: u32| {
+        let v = v2.clone();
+        async move {
+            let before = v.load(Ordering::SeqCst);
+            let g = ExecGuard::start(call, "fconst", before);
+            yields(steps as u64).await;
+            g.end("fconst", before, before, before + call as u64);
+            Ok(before + call as u64)
+        }
+    });
+    let v3 = val.clone();
+    let fonce: FOnce = RFnOnce::new_2(move |call: u32, steps: u32| async move {
+        let before = v3.load(Ordering::SeqCst);
+        let g = ExecGuard::start(call, "fonce", before);
+        yields(steps as u64).await;
+        g.end("fonce", before, before, before + 1000);
+        Ok(before + 1000)
+    });
+    let mut links = Vec::new();
+    let mut conn_keep = None;
+    let (mut fmut, fconst, fonce, ep) = if remote {
+        let mut conn = rem_connect::<(FMut, FConst, FOnce), ()>(&ca, &cb, seed, 0).await;
+        let (s, r) = tokio::join!(conn.a_tx.send((fmut, fconst, fonce)), conn.b_rx.recv());
+        s.ok().expect("send functions");
+        let (a, b, c) = r.ok().expect("recv functions").expect("functions");
+        links.extend(conn.links());
+        conn_keep = Some(conn);
+        (a, b, c, 2u64)
+    } else {
+        (fmut, fconst, fonce, 1u64)
+    };
+    let mut handles: Vec<tokio::task::JoinHandle<()>> = Vec::new();
+    match kind {
+        0 => {
+            let mut r = Rng::new(seed * 41 + 1);
+            tr(json!({"ev": "c_new", "cl": 1, "ep": ep}));
+            handles.push(spawn_d(ep, async move {
+                for _ in 0..r.range(3, 7) {
+                    let call = NEXT_CALL.fetch_add(1, Ordering::SeqCst);
+                    let (k, steps) = (r.range(1, 9), r.below(6) as u32);
+                    let polls = if r.chance(1, 3) { r.range(1, 16) } else { u64::MAX };
+                    tr(json!({"ev": "c_call", "call": call, "cl": 1, "ep": ep, "m": "fmut", "k": k, "steps": steps, "polls": if polls == u64::MAX { -1 } else { polls as i64 }}));
+                    log_ret_f(call, cancel_after(fmut.call(call, k, steps), polls).await, |v| *v);
+                    yields(r.below(8)).await;
+                }
+                tr(json!({"ev": "c_done", "cl": 1}));
+            }));
+            drop(fconst);
+            drop(fonce);
+        }
+        1 => {
+            for cl in 1..=rng.range(2, 3) {
+                let f = fconst.clone();
+                let mut r = Rng::new(seed * 41 + cl);
+                tr(json!({"ev": "c_new", "cl": cl, "ep": ep}));
+                handles.push(spawn_d(ep, async move {
+                    for _ in 0..r.range(2, 4) {
+                        let call = NEXT_CALL.fetch_add(1, Ordering::SeqCst);
+                        let steps = r.below(6) as u32;
+                        let polls = if r.chance(1, 4) { r.range(1, 16) } else { u64::MAX };
+                        tr(json!({"ev": "c_call", "call": call, "cl": cl, "ep": ep, "m": "fconst", "k": call, "steps": steps, "polls": if polls == u64::MAX { -1 } else { polls as i64 }}));
+                        log_ret_f(call, cancel_after(f.call(call, steps), polls).await, |v| *v);
+                        yields(r.below(8)).await;
+                    }
+                    tr(json!({"ev": "c_done", "cl": cl}));
+                }));
+            }
+            drop(fconst);
+            drop(fmut);
+            drop(fonce);
+        }
+        _ => {
+            let mut r = Rng::new(seed * 41 + 3);
+            tr(json!({"ev": "c_new", "cl": 1, "ep": ep}));
+            handles.push(spawn_d(ep, async move {
+                let call = NEXT_CALL.fetch_add(1, Ordering::SeqCst);
+                let steps = r.below(6) as u32;
+                let polls = if r.chance(1, 3) { r.range(1, 16) } else { u64::MAX };
+                tr(json!({"ev": "c_call", "call": call, "cl": 1, "ep": ep, "m": "fonce", "k": 1000, "steps": steps, "polls": if polls == u64::MAX { -1 } else { polls as i64 }}));
+                log_ret_f(call, cancel_after(fonce.call(call, steps), polls).await, |v| *v);
+                tr(json!({"ev": "c_done", "cl": 1}));
+            }));
+            drop(fconst);
+            drop(fmut);
+        }
+    }
+    let left = wait_tasks(&mut handles, &links, 4000).await;
+    tr(json!({"ev": "r_clients_end", "pending": left}));
+    for h in handles {
+        h.abort();
+    }
+    // let the providers finish what they were doing
+    for _ in 0..60 {
+        settle().await;
+    }
+    tr(json!({"ev": "r_end", "pending": left, "server_pending": 0, "final": val.load(Ordering::SeqCst)}));
     for conn in conn_keep.into_iter() {
         conn.pump.abort();
         for c in conn.conn {
